@@ -13,4 +13,5 @@ for p in "$@"; do
 done
 git -C /repo checkout -- . 
 rm -rf /verif/evidence; mv /root/scratch/evidence.bak /verif/evidence
+python3 /verif/gen/translate.py >/dev/null 2>&1
 echo "restored: $(git -C /repo status --short | wc -l) changes left"
